@@ -1,4 +1,5 @@
 import SpoxModel.Lemmas.Types
+import SpoxModel.Lemmas.TypesBroadcastConv
 import SpoxModel.Generated.Dtypes
 import SpoxModel.Generated.TypeOverrides
 /-!
@@ -396,6 +397,49 @@ theorem broadcast_rank (a b : Shape) (c : Shape) (h : broadcast a b = some c) :
 /-- **Both operand orders give the same answer.** -/
 theorem broadcast_comm (a b : Shape) : broadcast a b = broadcast b a := Types.broadcast_comm a b
 
+/-! ### Round 10: the raising side is exact (converse), for `broadcast` and `can_broadcast`, every spelling -/
+
+/-- **A static broadcast that succeeds is justified**: there are concrete runtime shapes conforming to the two
+    operands that numpy broadcasts (any ranks, any mix of constant / named / anonymous dimensions, unknown rank).
+    Converse of `broadcast_raises_only_if_impossible`. -/
+theorem broadcast_succeeds_only_if_possible (a b c : Shape) (h : broadcast a b = some c) :
+    ∃ sa sb s, confShape sa a ∧ confShape sb b ∧ npBroadcast sa sb = some s :=
+  Types.broadcast_possible a b c h
+
+/-- **`ShapeError` exactly when no conforming values could broadcast** (both directions). -/
+theorem broadcast_raises_iff_impossible (a b : Shape) :
+    broadcast a b = none ↔ ∀ sa sb, confShape sa a → confShape sb b → npBroadcast sa sb = none := by
+  constructor
+  · intro h sa sb ha hb; exact broadcast_raises_only_if_impossible a b sa sb h ha hb
+  · intro h
+    cases hb : broadcast a b with
+    | none => rfl
+    | some c =>
+      obtain ⟨sa, sb, s, ha, hb', hs⟩ := broadcast_succeeds_only_if_possible a b c hb
+      rw [h sa sb ha hb'] at hs; cases hs
+
+/-- **`can_broadcast` is exact for every spelling of the operand**: `True` iff some conforming runtime shapes
+    broadcast under numpy's rule. -/
+theorem canBroadcast_exact (a : Shape) (o : ShapeArg) :
+    canBroadcast a o = true ↔ ∃ sa sb s, confShape sa a ∧ confShape sb o.resolve ∧ npBroadcast sa sb = some s := by
+  constructor
+  · intro h
+    simp only [canBroadcast, broadcastArg, Option.isSome_iff_exists] at h
+    obtain ⟨c, hc⟩ := h
+    exact broadcast_succeeds_only_if_possible a o.resolve c hc
+  · intro ⟨sa, sb, s, ha, hb, hs⟩
+    cases hc : canBroadcast a o with
+    | true => rfl
+    | false => rw [canBroadcast_false_only_if_impossible a o sa sb hc ha hb] at hs; cases hs
+
+/-- ... and the shape claimed on success is itself inhabited by the numpy result of those witnesses
+    (`broadcast_sound` applied to them): success always comes with a concrete confirming instance. -/
+theorem broadcast_success_confirmed (a b c : Shape) (h : broadcast a b = some c) :
+    ∃ sa sb s, confShape sa a ∧ confShape sb b ∧ npBroadcast sa sb = some s ∧ confShape s c := by
+  obtain ⟨sa, sb, s, ha, hb, hs⟩ := broadcast_succeeds_only_if_possible a b c h
+  exact ⟨sa, sb, s, ha, hb, hs, broadcast_sound a b c sa sb s h ha hb hs⟩
+
+
 /-! ## What the model covers (tie G: inventory of the type layer's classes and deciding methods) -/
 
 /-- Obligation: the classes deriving from `Type` / `Natural` / `Shape` anywhere under `src/spox`, their
@@ -441,5 +485,11 @@ example : broadcastArg (some [.const 2, .const 1]) (.simple (some [.str "N"])) =
 example : canBroadcast (some [.const 2]) (.simple (some [.int 3])) = false := by decide
 example : compat (.seq (.tensor 7 (some [.const 2]))) (.seq (.tensor 7 (some [.unk "N"]))) = true := by decide
 example : compat (.tensor 7 (some [.const 2])) (.tensor 7 (some [.const 3])) = false := by decide
+-- round 10: exactness of the raising side on instances (a name against a constant succeeds, two constants do not)
+example : canBroadcast (some [.unk "N", .const 3]) (.simple (some [.int 2, .int 1])) = true := by decide
+example : ¬ ∃ sa sb s, confShape sa (some [.const 2]) ∧ confShape sb (some [.const 3]) ∧ npBroadcast sa sb = some s := by
+  intro ⟨sa, sb, s, ha, hb, hs⟩
+  have := (broadcast_raises_iff_impossible (some [.const 2]) (some [.const 3])).1 (by decide) sa sb ha hb
+  rw [this] at hs; cases hs
 
 end C13
